@@ -698,6 +698,9 @@ class PreAux:
                     self.est = ("err", type(e).__name__)
 
 
+HYP = {"pulses": 0, "A2_false": 0}   # coverage of the fall-time hypotheses (reported in the C03 evidence)
+
+
 class MonC03(Monitor):
     """Addressing-conflict protocols: no conflict, minimal delay, exact estimate; align."""
 
@@ -719,6 +722,20 @@ class MonC03(Monitor):
         pre = self.p.aux.get(name)
         if pre is None or not pre["slots"]:
             return fails
+        # oracle hypotheses of the Lean theorem C03.no_conflict, on every pulse present before the call:
+        # A1 fall <= 2 * rise time of its modulation (a failure means the theorem no longer covers the code);
+        # A2 fall(EOM) <= fall(standard) is only counted (false for EOMs slower than the channel)
+        for oname, a in self.p.aux.items():
+            och = a["ch"]
+            for sl in a["slots"]:
+                if sl[0] != "P":
+                    continue
+                HYP["pulses"] += 1
+                if sl[4] > 2 * och.rise_time or (och.supports_eom() and sl[5] > 2 * och.eom_config.rise_time):
+                    fails.append(self.F("fall-hypothesis-A1", f"{oname}: fall times ({sl[4]}, {sl[5]}) exceed twice the rise time "
+                                        f"({och.rise_time}, {och.eom_config.rise_time if och.supports_eom() else '-'})", op=k))
+                if och.supports_eom() and sl[5] > sl[4]:
+                    HYP["A2_false"] += 1
         ch = pre["ch"]
         t0 = pre["end"]
         my_targets = pre["slots"][-1][3]
